@@ -34,6 +34,10 @@ ASSUMPTIONS = [
     "sequence numbers fit SQLite's 64-bit INTEGER (session family restrictions)",
     "the new object is built with the same CompIDs and heartbeat period over the same journal file; nobody else "
     "writes the file in between",
+    "the model knows ONE session: further sessions in the same journal file (CompID pairs incl. the mirror image, "
+    "counters/rows ahead, behind, interleaved, created before or after ours), the in-memory journal / object-only "
+    "restart over a live Journaler, and the receive buffer of the library's reader task are covered by "
+    "correspondence (whole endpoint state compared, other sessions must stay untouched) and oracle only",
     "theorems are about runs in which no exception is caught or escapes (stored_eq_live, no_number_reuse) and "
     "the application does not send frames that carry their own MsgSeqNum (SequenceReset / PossDupFlag=Y) or call "
     "reset_seq_num(); the oracle uses the same scope",
@@ -44,6 +48,9 @@ MODELLED_NOT_VERIFIED = [
     "single steps + random histories); kill points inside a segment that holds several journal operations "
     "(resend servicing, the two set_seq_num of _process_seqreset, Logon reply + ResendRequest) are covered by "
     "the oracle only",
+    "C09: `_msg_buffer` / socket_read_task (bytes, partial frames of a dead connection) are outside the session model; the "
+    "counterparty-dies-mid-frame scenarios run the real reader task of an acceptor (real _handle_accept) and of an "
+    "initiator (real connect()) - oracle only",
 ]
 
 SIG_D13 = "C09-seqreset-stored-inbound-counter-lags"
@@ -78,12 +85,60 @@ def classify(kind, sites, j):
 
 
 # ------------------------------------------------------------------------------------------------
+# MULTIPLICITY: further sessions in the journal the endpoint is rebuilt over
+# ------------------------------------------------------------------------------------------------
+def other_sessions(rng, a: S.AbsConn, force=False):
+    """0-3 further sessions for the same journal file: other CompID pairs (incl. the mirror image of ours and
+    pairs sharing one CompID with ours), counters and rows ahead of / behind / interleaved with ours."""
+    if not force and rng.random() < 0.45:
+        return [], False
+    pairs = [(a.target, a.sender), (a.sender, a.target + "2"), (a.sender + "B", a.target), ("VENUE2", "DESK7")]
+    rng.shuffle(pairs)
+    out = []
+    for snd, tgt in pairs[: rng.randint(1, 3)]:
+        if (snd, tgt) == (a.sender, a.target):
+            continue
+        rel = rng.choice(["ahead", "behind", "interleaved", "empty", "far"])
+        base_o, base_i = a.next_out - 1, a.next_in - 1
+        if rel == "ahead":
+            o, i = base_o + rng.choice([1, 3, 11]), base_i + rng.choice([1, 4])
+        elif rel == "behind":
+            o, i = max(0, base_o - rng.choice([1, 2])), max(0, base_i - 1)
+        elif rel == "interleaved":
+            o, i = base_o + 2, max(0, base_i - 1)
+        elif rel == "far":
+            o, i = base_o + 1000, base_i + 2000
+        else:
+            o, i = 0, 0
+        out_rows = [S.row(snd, tgt, "D", ((11, f"oth{n}"), (58, "x")), n) for n in range(max(1, o - 2), o + 1)]
+        if rel == "interleaved":
+            out_rows = out_rows[::2]
+        in_rows = [S.row(tgt, snd, "D", ((11, f"oin{n}"),), n) for n in range(max(1, i - 1), i + 1)]
+        if rel == "ahead" and rng.random() < 0.3:   # rows above that session's own stored counter
+            out_rows.append(S.row(snd, tgt, "D", ((11, "beyond"),), o + 2))
+        out.append({"sender": snd, "target": tgt, "out": o, "inb": i, "out_rows": out_rows, "in_rows": in_rows,
+                    "rel": rel})
+    return out, rng.random() < 0.5
+
+
+def others_json(others):
+    return [{k: v for k, v in o.items() if k != "key"} for o in others]
+
+
+def others_from_json(js):
+    return [dict(o, out_rows=[(r[0], (r[1][0], [tuple(x) for x in r[1][1]])) for r in o["out_rows"]],
+                 in_rows=[(r[0], (r[1][0], [tuple(x) for x in r[1][1]])) for r in o["in_rows"]]) for o in js or []]
+
+
+# ------------------------------------------------------------------------------------------------
 # lock-step execution of one history (implementation first; model lines are checked afterwards)
 # ------------------------------------------------------------------------------------------------
 class Hist:
-    def __init__(self, impl, start, role, label=""):
+    def __init__(self, impl, start, role, label="", others=None, others_first=False, memory=False):
         self.impl, self.start, self.role, self.label = impl, start, role, label
-        impl.new_file()
+        self.others, self.others_first, self.memory = list(others or []), others_first, memory
+        impl.new_file(others=[dict(o) for o in self.others], others_first=others_first, memory=memory)
+        self.others_before = impl.others_snapshot()
         impl.load(start)
         self.a = start
         self.script = []      # replayable: ["ev", sr, evtok] | ["restart"] | ["kill", sr, evtok, j]
@@ -101,14 +156,17 @@ class Hist:
         self.a = S.parse_conn_tokens(post)
         return eff
 
+    def config(self):
+        return {"others": others_json(self.others), "others_first": self.others_first, "memory": self.memory}
+
     # -- quiescent restart
-    def restart(self):
+    def restart(self, mode="file"):
         old = self.a
-        post = self.impl.restart(self.role)
-        self.script.append(["restart"])
+        post = self.impl.restart(self.role, mode)
+        self.script.append(["restart", mode])
         self.checks.append((f"rst.restart {self.role}", ("eq", "- # " + post), "restart"))
         new = S.parse_conn_tokens(post)
-        self.obs.append(("restart", "restart", old.state,
+        self.obs.append(("restart", "restart:" + ("memory" if self.memory else mode) + (":multi" if self.others else ""), old.state,
                          ("in=" if new.next_in == old.next_in else "in!",
                           "out=" if new.next_out == old.next_out else "out!")))
         self.a = new
@@ -169,6 +227,8 @@ def verify(hists, drv, stats):
         if chk[0] == "eq":
             ok = ml == chk[1]
             want = chk[1]
+        elif chk[0] == "fail":      # a sentence about the implementation alone failed while the history ran
+            ok, want = False, chk[1]
         else:
             states = ml.split(" | ")
             want = chk[1]
@@ -180,7 +240,8 @@ def verify(hists, drv, stats):
                 stats["member_intermediate"] = stats.get("member_intermediate", 0) + 1
         if not ok:
             bad.add(hi)
-            dis.append({"input": {"history": {"start": h.start.tokens(), "role": h.role, "script": h.script},
+            dis.append({"input": {"history": {"start": h.start.tokens(), "role": h.role, "script": h.script,
+                                              **h.config()},
                                   "label": h.label, "check": what, "line": line[:3000]},
                         "model": ml[:3000], "impl": want[:3000]})
     return len(lines), dis
@@ -192,7 +253,9 @@ def verify(hists, drv, stats):
 def random_history(impl, rng, max_len, stats):
     role = rng.choice([1, 1, 2])
     start = S.fresh(role, rng)
-    h = Hist(impl, start, role, "random")
+    others, first = other_sessions(rng, start)
+    memory = rng.random() < 0.12
+    h = Hist(impl, start, role, "random", others, first, memory)
     now = T0
     n = rng.randint(max_len // 2, max_len)
     for _ in range(n):
@@ -200,14 +263,18 @@ def random_history(impl, rng, max_len, stats):
         now += rng.choice([0, 125, 250, 1000, 1000, 3000, a.hb * 1000, a.hb * 2000 + 125])
         r = rng.random()
         if r < 0.09:
-            h.restart()
+            h.restart(rng.choice(["file", "file", "object"]))
             continue
         sr, ev, lab = S.next_event(rng, a, now)
-        if ev[0] in ("send", "recv") and r < 0.27 or ev[0] in ("tick", "testreq", "disc", "eof") and r < 0.16:
+        if memory:
+            h.ev(sr, ev, lab)     # a kill has no meaning for a journal that lives in the dying process
+        elif ev[0] in ("send", "recv") and r < 0.27 or ev[0] in ("tick", "testreq", "disc", "eof") and r < 0.16:
             h.kill(sr, ev, rng.randrange(8), lab)
         else:
             h.ev(sr, ev, lab)
     h.restart()
+    if h.others and impl.others_snapshot() != h.others_before:
+        h.checks.append(("ping", ("fail", "another session of the journal was modified"), "others-untouched"))
     return h
 
 
@@ -233,12 +300,13 @@ def parse_event(text):
 
 
 def replay_script(impl, e):
-    h = Hist(impl, S.parse_conn_tokens(e["start"]), e["role"], "corpus:" + e.get("label", ""))
+    h = Hist(impl, S.parse_conn_tokens(e["start"]), e["role"], "corpus:" + e.get("label", ""),
+             others_from_json(e.get("others")), e.get("others_first", False), e.get("memory", False))
     for st in e["script"]:
         if st[0] == "ev":
             h.ev(st[1], parse_event(st[2]))
         elif st[0] == "restart":
-            h.restart()
+            h.restart(st[1] if len(st) > 1 else "file")
         else:
             h.kill(st[1], parse_event(st[2]), st[3])
     return h
@@ -267,26 +335,27 @@ def correspondence(ctx):
         for e in corpus_scripts():
             hists.append(replay_script(impl, e))
         # kill sweep: every site of sampled single steps
-        nsweep = ctx.n(500, 3000)
+        nsweep = ctx.n(350, 3000)
         sweep_sites = 0
         segeq_lines = []
         for (a, sr, ev, lab) in sweep_cases(ctx.rng, nsweep):
             role = a.role if a.role in (1, 2) else 1
+            others, first = other_sessions(ctx.rng, a)
             impl.new_file()
             impl.load(a)
             impl.run_event(sr, ev)
             nsites = len(impl.sites)
             segeq_lines.append(f"rst.segeq {sr} {a.tokens()} E {S.event_tokens(ev)}")
             for j in range(nsites):
-                h = Hist(impl, a, role, "sweep:" + lab)
+                h = Hist(impl, a, role, "sweep:" + lab, others, first)
                 h.kill(sr, ev, j, lab)
                 hists.append(h)
                 sweep_sites += 1
-            h = Hist(impl, a, role, "sweep:" + lab)
+            h = Hist(impl, a, role, "sweep:" + lab, others, first)
             h.ev(sr, ev, lab)
-            h.restart()
+            h.restart(ctx.rng.choice(["file", "object"]))
             hists.append(h)
-        nh, hl = ctx.n(1500, 12000), ctx.n(25, 60)
+        nh, hl = ctx.n(1000, 12000), ctx.n(25, 60)
         for _ in range(nh):
             hists.append(random_history(impl, ctx.rng, hl, stats))
         drv = C.Driver()
@@ -320,7 +389,11 @@ def correspondence(ctx):
                     "counters, journal rows) and the effects before the kill are compared with the model "
                     "(killsend/killrecv segment prefix + restart); kills inside a segment are compared with the "
                     "boundary states (membership); segeq: the segmented handlers evaluated against the sequential "
-                    "model functions on the same steps. distinct = distinct (kind, label/site, pre-state, outcome) tuples.",
+                    "model functions on the same steps. Configuration dimensions drawn per history / sweep case: 0-3 OTHER sessions in "
+                    "the same journal (ahead / behind / interleaved / far / empty; created before or after ours), file vs "
+                    "in-memory journal, restart = reopen the file vs rebuild only the object over the live Journaler, role "
+                    "1 / 2 through the real AsyncFIXClient / AsyncFIXDummyServer constructors; other sessions must stay "
+                    "untouched. distinct = distinct (kind, label/site, pre-state, outcome) tuples.",
             "samples": samples,
             "exhaustive": False,
             "distribution": {"by_kind": {k: dict(sorted(v.items(), key=lambda kv: -kv[1])[:40]) for k, v in dist.items()},
@@ -366,11 +439,19 @@ class Session:
     completely (application messages with PossDupFlag=Y, everything else by one GapFill per run of numbers),
     answers TestRequests, and asks for a resend when the endpoint's numbers jump."""
 
-    def __init__(self, impl, role, rng, hb=30):
+    def __init__(self, impl, role, rng, hb=30, config=True, allow_memory=True):
         self.impl, self.role, self.rng = impl, role, rng
         a = S.AbsConn(state=1, role=role, sender="INIT" if role == 1 else "ACPT",
                       target="ACPT" if role == 1 else "INIT", hb=hb)
-        impl.new_file()
+        # configuration dimensions, all drawn from the scenario's own generator (replayable from its seed):
+        # other sessions in the journal, their rows before/after ours, in-memory journal, restart mode,
+        # counterparty frames through the library's own reader task (bytes) or handed to _process_message
+        self.others, self.others_first = other_sessions(rng, a, force=rng.random() < 0.5) if config else ([], False)
+        self.memory = config and allow_memory and rng.random() < 0.15
+        self.mode = "object" if self.memory else (rng.choice(["file", "file", "object"]) if config else "file")
+        self.via_bytes = config and rng.random() < 0.4
+        impl.new_file(others=[dict(o) for o in self.others], others_first=self.others_first, memory=self.memory)
+        self.others_before = impl.others_snapshot()
         impl.load(a)
         del impl.wire[:]
         self.a = a
@@ -469,7 +550,10 @@ class Session:
         m = self._inbound(mtype, body, seq, pd)
         ev = ("recv", self.now, m)
         self.trace.append(["recv", mtype, seq, pd, plan, [list(x) for x in body]])
-        eff, killed = self.impl.run_event("all", ev, plan)
+        if self.via_bytes and plan is None and self.a.sock:
+            eff, killed = self.impl.feed_bytes([S.fields_to_bytes(m[1])], self.now), False
+        else:
+            eff, killed = self.impl.run_event("all", ev, plan)
         if killed:
             lab = self.impl.kill_label
             if any(e.startswith("D=") for e in eff) and mtype == "D":
@@ -553,8 +637,9 @@ class Session:
     def restart(self, after_kill=False):
         """discard + rebuild; checks the restored counters (sentence 1)"""
         old = self.a
-        self.trace.append(["restart", after_kill])
-        new = S.parse_conn_tokens(self.impl.restart(self.role))
+        mode = "file" if (after_kill and not self.memory) else self.mode
+        self.trace.append(["restart", after_kill, mode])
+        new = S.parse_conn_tokens(self.impl.restart(self.role, mode))
         if not after_kill:
             if new.next_out != old.next_out:
                 self.fail("C09-restored-counter-differs:out", "restored outbound counter differs from the old object's "
@@ -599,6 +684,9 @@ class Session:
     def final_checks(self):
         """no loss / duplication of application messages, no number reuse on the wire"""
         self.settle()
+        if self.impl.others_snapshot() != self.others_before:
+            self.fail("C09-other-session-modified", "a session of the same journal that the endpoint does not own was "
+                      "modified (counters or rows)", "untouched", "changed")
         got = [cid for _, cid in self.delivered]
         for cid in self.sent_ids:
             n = got.count(cid)
@@ -711,7 +799,7 @@ def scen_quiescent(impl, rng, role, variant):
 
 def scen_kill_send(impl, rng, role, j):
     """kill at site j of an application send, restart, reconnect + Logon, send again"""
-    s = Session(impl, role, rng)
+    s = Session(impl, role, rng, allow_memory=False)
     warm(s, rng, rng.randint(1, 4))
     pre_out = s.a.next_out
     eff, killed, cid = s.app_out(plan=j)
@@ -734,7 +822,7 @@ def scen_kill_send(impl, rng, role, j):
 
 def scen_kill_recv(impl, rng, role, kind, j):
     """kill at site j of inbound processing of one frame class"""
-    s = Session(impl, role, rng)
+    s = Session(impl, role, rng, allow_memory=False)
     warm(s, rng, rng.randint(1, 4))
     pre_in = s.a.next_in
     if kind == "app":
@@ -777,6 +865,46 @@ def scen_kill_recv(impl, rng, role, kind, j):
     return s, True
 
 
+def scen_peer_midframe(impl, rng, role, where):
+    """the COUNTERPARTY is the one that dies: in the middle of writing a frame (the frame is in its journal
+    already), so the surviving endpoint – acceptor through the real `_handle_accept`, initiator through the real
+    `connect()` – holds a partial frame in its receive buffer when the stream ends.  The counterparty comes
+    back (new transport), logs on with its next number; the session must come up and the interrupted message
+    must arrive exactly once."""
+    s = Session(impl, role, rng, allow_memory=True)
+    s.via_bytes = True
+    warm(s, rng, rng.randint(1, 4))
+    if s.a.state != 17:
+        return s
+    s.nid += 1
+    cid = f"P{s.nid}"
+    s.sent_ids.append(cid)
+    seq = s.p_out
+    s.p_out += 1
+    body = [(11, cid), (58, "payload")]
+    s.p_sent[seq] = ("D", body)
+    s.tick_clock()
+    raw = S.fields_to_bytes(s._inbound("D", body, seq)[1])
+    cut = {"head": rng.randint(1, 6), "mid": len(raw) // 2, "tail": len(raw) - rng.randint(1, 4),
+           "marker": raw.index(b"\x0135=") + 1}[where]
+    chunks = [raw[:cut]] if where != "mid" else [raw[: cut // 2], raw[cut // 2: cut]]
+    s.trace.append(["bytes", where, cut, len(raw)])
+    eff = impl.feed_bytes(chunks + [b""], s.now)          # partial frame, then the stream ends
+    s._react(s._after(eff, False), eff, False)
+    if s.a.state > 3:
+        s.fail("C09-peer-death-not-noticed", "end of stream after a partial frame did not disconnect the endpoint",
+               "disconnected", s.a.state)
+    eff = s.logon()                                         # new transport, counterparty's Logon as bytes
+    if not any(e.startswith("L=") for e in eff):
+        s.fail("C09-logon-after-peer-restart-not-processed", "the counterparty's Logon on the new transport was not "
+               "processed (a stale partial frame of the dead connection was still in the receive buffer)",
+               "on_logon called", [e.split("=")[0] for e in eff])
+    s.app_in()
+    s.app_out()
+    s.final_checks()
+    return s
+
+
 def run_scenarios(impl, rng, rounds, stats):
     failures = []
 
@@ -784,6 +912,12 @@ def run_scenarios(impl, rng, rounds, stats):
         stats["scenarios"] = stats.get("scenarios", 0) + 1
         stats.setdefault("by_scenario", {})
         stats["by_scenario"][name] = stats["by_scenario"].get(name, 0) + 1
+        cfg = stats.setdefault("config", {})
+        for k in [f"others={len(s.others)}"] + ["other-session:" + o["rel"] for o in s.others] + [
+                  "others-created-first" if (s.others and s.others_first) else "ours-created-first",
+                  "journal=" + ("memory" if s.memory else "file"), "restart=" + s.mode,
+                  "frames=" + ("bytes/reader-task" if s.via_bytes else "process_message"), f"role={s.role}"]:
+            cfg[k] = cfg.get(k, 0) + 1
         for f in s.failures:
             f = dict(f)
             f["input"] = {"scenario": name, "params": params, "trace": s.trace[-40:]}
@@ -796,6 +930,10 @@ def run_scenarios(impl, rng, rounds, stats):
                 seed = rng.randrange(1 << 30)
                 s = scen_quiescent(impl, _rng(seed), role, v)
                 collect(s, "quiescent:" + v, {"role": role, "seed": seed, "variant": v})
+            for where in ("head", "marker", "mid", "tail"):
+                seed = rng.randrange(1 << 30)
+                s = scen_peer_midframe(impl, _rng(seed), role, where)
+                collect(s, "peer-midframe:" + where, {"role": role, "seed": seed, "where": where})
             for j in range(8):
                 seed = rng.randrange(1 << 30)
                 s, k = scen_kill_send(impl, _rng(seed), role, j)
@@ -820,6 +958,8 @@ def run_one(impl, name, params):
     rng = _rng(params["seed"])
     if name.startswith("quiescent:"):
         return scen_quiescent(impl, rng, params["role"], params["variant"])
+    if name.startswith("peer-midframe:"):
+        return scen_peer_midframe(impl, rng, params["role"], params["where"])
     if name.startswith("kill-send:"):
         return scen_kill_send(impl, rng, params["role"], params["site"])[0]
     return scen_kill_recv(impl, rng, params["role"], params["kind"], params["site"])[0]
@@ -833,21 +973,32 @@ def history_oracle(impl, rng, n_hist, max_len, stats, failures):
         start = S.fresh(role, rng)
         if any(seq >= start.next_out for seq, _ in start.out_rows):
             continue
-        impl.new_file()
+        others, first = other_sessions(rng, start)
+        memory = rng.random() < 0.1
+        impl.new_file(others=[dict(o) for o in others], others_first=first, memory=memory)
+        others_before = impl.others_snapshot()
         impl.load(start)
         del impl.wire[:]
+        cfg = {"others": others_json(others), "others_first": first, "memory": memory}
+        stats["hist_multi"] = stats.get("hist_multi", 0) + (1 if others else 0)
+        stats["hist_memory"] = stats.get("hist_memory", 0) + (1 if memory else 0)
         a, now, clean, script = start, T0, True, []
         top = start.next_out - 1
         for _ in range(rng.randint(max_len // 2, max_len)):
             now += rng.choice([0, 125, 250, 1000, 3000, a.hb * 1000])
             if rng.random() < 0.12:
                 old = a
-                a = S.parse_conn_tokens(impl.restart(role))
-                script.append(["restart"])
+                mode = rng.choice(["file", "object"])
+                a = S.parse_conn_tokens(impl.restart(role, mode))
+                script.append(["restart", mode])
                 stats["hist_restarts"] = stats.get("hist_restarts", 0) + 1
+                if impl.others_snapshot() != others_before:
+                    failures.append({"signature": "C09-other-session-modified", "what": "a session of the same journal that "
+                                     "the endpoint does not own was modified", "expected": "untouched", "observed": "changed",
+                                     "input": {"history": {"start": start.tokens(), "role": role, "script": list(script), **cfg}}})
                 if clean:
                     stats["hist_clean_restarts"] = stats.get("hist_clean_restarts", 0) + 1
-                    inp = {"history": {"start": start.tokens(), "role": role, "script": list(script)}}
+                    inp = {"history": {"start": start.tokens(), "role": role, "script": list(script), **cfg}}
                     if a.next_out != old.next_out:
                         failures.append({"signature": "C09-restored-counter-differs:out", "input": inp,
                                          "what": "restored outbound counter differs at a quiescent point of a run "
@@ -879,7 +1030,7 @@ def history_oracle(impl, rng, n_hist, max_len, stats, failures):
                             n = int(f[34])
                             if n <= top:
                                 failures.append({"signature": "C09-outbound-number-reused",
-                                                 "input": {"history": {"start": start.tokens(), "role": role, "script": list(script)}},
+                                                 "input": {"history": {"start": start.tokens(), "role": role, "script": list(script), **cfg}},
                                                  "what": "new frame under a number already used (run without exceptions)",
                                                  "expected": f"> {top}", "observed": n})
                             top = max(top, n)
@@ -929,9 +1080,13 @@ def replay_history_oracle(impl, hist):
         return out      # inconsistent store (rows above the counters): outside the quantifier
     if start.stored_out + 1 != start.next_out or start.stored_in + 1 != start.next_in:
         return out
-    impl.new_file()
+    others = others_from_json(hist.get("others"))
+    memory = hist.get("memory", False)
+    impl.new_file(others=[dict(o) for o in others], others_first=hist.get("others_first", False), memory=memory)
+    others_before = impl.others_snapshot()
     impl.load(start)
     a, clean = start, True
+    cfg = {k: hist[k] for k in ("others", "others_first", "memory") if k in hist}
     script = list(hist["script"])
     if not script or script[-1][0] != "restart":
         script.append(["restart"])
@@ -947,8 +1102,11 @@ def replay_history_oracle(impl, hist):
             a = S.parse_conn_tokens(impl.dump())
         elif st[0] == "restart":
             old = a
-            a = S.parse_conn_tokens(impl.restart(role))
-            inp = {"history": {"start": hist["start"], "role": role, "script": list(done)}}
+            a = S.parse_conn_tokens(impl.restart(role, st[1] if len(st) > 1 else "file"))
+            inp = {"history": {"start": hist["start"], "role": role, "script": list(done), **cfg}}
+            if impl.others_snapshot() != others_before:
+                out.append({"signature": "C09-other-session-modified", "what": "a session of the same journal that the "
+                            "endpoint does not own was modified", "input": inp, "expected": "untouched", "observed": "changed"})
             if clean and a.next_out != old.next_out:
                 out.append({"signature": "C09-restored-counter-differs:out", "what": "restored outbound counter differs "
                             "at a quiescent point of a run without exceptions", "input": inp,
@@ -961,6 +1119,8 @@ def replay_history_oracle(impl, hist):
             clean = True
         else:
             ev = parse_event(st[2])
+            if memory:
+                continue
             impl.run_event(st[1], ev, plan=st[3])
             a = S.parse_conn_tokens(impl.restart(role))
             clean = True
